@@ -217,6 +217,21 @@ Theorem C16_jwt_hs_verify_iff : forall K (mac : K -> bytes -> bytes) parse_heade
 Proof. exact @hs_verify_iff. Qed.
 Print Assumptions C16_jwt_hs_verify_iff.
 
+(** Whatever JSON the header and claims segments hold. *)
+Theorem C16_jwt_signed_bytes_and_parsed_semantics :
+  forall K (mac : K -> bytes -> bytes) parse_header parse_claims, mac_bytes_law mac ->
+  forall k pin now tok t,
+  hs_verify mac parse_header parse_claims b64_decode_canon k pin now tok = JOk t ->
+  exists hs cs hb cb,
+    tok = hs ++ dot :: cs ++ dot :: b64_encode (mac k (hs ++ dot :: cs)) /\
+    t_payload t = hs ++ dot :: cs /\ t_sig t = mac k (hs ++ dot :: cs) /\
+    nosep dot hs /\ nosep dot cs /\
+    b64_decode_canon hs = Some hb /\ parse_header hb = Some (t_header t) /\
+    b64_decode_canon cs = Some cb /\ parse_claims cb = Some (t_claims t) /\
+    check_header (t_header t) pin = None /\ check_time (t_claims t) now = None.
+Proof. exact @hs_signed_bytes_and_parsed_semantics. Qed.
+Print Assumptions C16_jwt_signed_bytes_and_parsed_semantics.
+
 Theorem C16_jwt_hs_token_unique : forall K (mac : K -> bytes -> bytes) parse_header parse_claims,
   mac_bytes_law mac ->
   forall k pin now now' tok tok' t t',
